@@ -479,6 +479,15 @@ class Interp:
                 self.regions[a >> SHIFT].size = max(size, 4096)
                 if name == '__libc_single_threaded':
                     self.store(a, 1, 1)
+                if name == '_ZTVSt9exception':
+                    # vtable of std::exception (objects of exactly that type appear when an exception is copied by its static type):
+                    # {offset-to-top, typeinfo, ~exception() complete, ~exception() deleting, what()}
+                    for k, fn in enumerate(('_ZNSt9exceptionD1Ev', '_ZNSt9exceptionD0Ev', '_ZNKSt9exception4whatEv')):
+                        fa = self.func_addr.get(fn)
+                        if fa is None:
+                            fa = self.alloc(1, 'func', fn); self.func_addr[fn] = fa; self.addr_func[fa] = fn
+                        self.store(a + 16 + 8 * k, 8, fa)
+                    self.store(a, 8, 0)
             return a
         raise Unsupported('unknown global @' + name)
 
@@ -1110,6 +1119,26 @@ class Interp:
                 p = {((k, 1),): Fraction(1)}
                 self.polytab[x.id] = p
                 return p
+            # a polynomial expression built outside the interpreter (e.g. an input given as constant + variable)
+            if x.op == 'const':
+                p = {(): Fraction(x.args[0])}
+            elif x.op in ('add', 'sub') and x.sort == 'R':
+                pa = self._poly_of(x.args[0]); pb = self._poly_of(x.args[1])
+                if pa is None or pb is None: return None
+                p = dict(pa)
+                for m_, c_ in pb.items(): p[m_] = p.get(m_, 0) + (c_ if x.op == 'add' else -c_)
+            elif x.op == 'mul' and x.sort == 'R':
+                pa = self._poly_of(x.args[0]); pb = self._poly_of(x.args[1])
+                if pa is None or pb is None: return None
+                p = self._poly_mul(pa, pb)
+            elif x.op == 'neg':
+                pa = self._poly_of(x.args[0])
+                if pa is None: return None
+                p = {m_: -c_ for m_, c_ in pa.items()}
+            else:
+                return None
+            self.polytab[x.id] = p
+            return p
         return None
 
     def _poly_node(self, p):
